@@ -557,6 +557,11 @@ func (i *importer) importMessage(dbcMsg *dbc.Message) error {
 	if muxSigCount == 1 {
 		dbcMuxSig := muxSignals[0]
 
+		// the only multiplexor switch of the message cannot be multiplexed itself
+		if dbcMuxSig.IsMultiplexed {
+			return i.errorf(dbcMuxSig, &ErrIsRequired{Item: "multiplexor switch"})
+		}
+
 		lastMuxedStartPos := -1
 		stdSignals := []*importerSignal{}
 
@@ -657,6 +662,11 @@ func (i *importer) importMessage(dbcMsg *dbc.Message) error {
 
 		dbcExtMux, ok := i.dbcExtMuxes[i.getSignalKey(dbcMsg.ID, dbcMuxSig.Name)]
 		if !ok {
+			// a multiplexed multiplexor has to name its own multiplexor
+			if dbcMuxSig.IsMultiplexed {
+				return i.errorf(dbcMuxSig, &ErrIsRequired{Item: "extended multiplexing"})
+			}
+
 			if err := msg.InsertSignal(muxSig, i.getSignalStartBit(dbcMuxSig)); err != nil {
 				return i.errorf(dbcMuxSig, err)
 			}
